@@ -7,7 +7,7 @@ _SWEEP_RULE = (
     "2^-126 <= |x| < 2^126 (4 227 858 432 / 2 113 929 216 patterns); rcp_safe finite and not of the opposite sign "
     "for all 4 278 190 080 finite patterns; sign for all 4 278 190 082 non-NaN; deg2rad vs x*pi/180 in double within two float "
     "roundings; cvt_uint32(x) and cvt_uint32(linear_to_srgb(x)) <= 255, 0 for x <= 0, 255 for x >= 1 and "
-    "non-decreasing from each float to the next (NaN excluded); plus every 32-bit seed x {[0,1],[-1,1]} (thorough: 6 "
+    "non-decreasing from each float to the next (NaN excluded); plus every 32-bit seed x {[0,1],[-3,-1]} (thorough: 6 "
     "ranges) for the first draw of pcg32_biased_float_distribution (inside the range to one rounding step, "
     "bit-identical on a second construction) and every 32-bit index of makeRandomColor (components in [0,1]). "
     "distinct = (function, input exponent / result byte / position bucket, error-magnitude bucket) classes observed")
